@@ -420,9 +420,9 @@ func TestVerifC17Compile(t *testing.T) {
 	g := &c17ZGen{r: r, stats: stats}
 	st.Emit(c17ProbeClasses(t, stats), "classes ok")
 
-	nz := VEnvInt("VERIF_C17_COMPILE_N", 240)
+	nz := VEnvInt("VERIF_C17_COMPILE_N", 120)
 	if VThorough() {
-		nz = VEnvInt("VERIF_C17_COMPILE_N", 2400)
+		nz = VEnvInt("VERIF_C17_COMPILE_N", 1600)
 	}
 	nz /= shards
 	max := consts.MaxMatchSetLen
@@ -456,9 +456,9 @@ func TestVerifC17Compile(t *testing.T) {
 		st.Emit(fmt.Sprintf("z %s %d %s", which, max, c17Hex(in)), out)
 	}
 
-	np := VEnvInt("VERIF_C17_PIPELINE_N", 1600)
+	np := VEnvInt("VERIF_C17_PIPELINE_N", 600)
 	if VThorough() {
-		np = VEnvInt("VERIF_C17_PIPELINE_N", 16000)
+		np = VEnvInt("VERIF_C17_PIPELINE_N", 12000)
 	}
 	np /= shards
 	emitN := func(in string) {
